@@ -21,8 +21,12 @@ import (
 	"time"
 
 	dtlsflight13 "github.com/pion/dtls/v3/internal/flight/flight13"
+	"github.com/pion/dtls/v3/internal/negotiation"
 	dtlsstate "github.com/pion/dtls/v3/internal/state"
+	"github.com/pion/dtls/v3/pkg/crypto/elliptic"
 	"github.com/pion/dtls/v3/pkg/protocol"
+	"github.com/pion/dtls/v3/pkg/protocol/extension"
+	extension13 "github.com/pion/dtls/v3/pkg/protocol/extension/dtls13"
 	"github.com/pion/dtls/v3/pkg/protocol/handshake"
 	"github.com/pion/dtls/v3/pkg/protocol/recordlayer"
 )
@@ -43,6 +47,10 @@ func hs13Variants() []c02Variant {
 		// client [Certificate] [CertificateVerify, Finished]
 		{Name: "v13-hrr-clientauth-mtu450", V13: true, HRR: true, ClientAuth: true, MTU: 450},
 		{Name: "v13-mtu120", V13: true, MTU: 120},
+		// key-share mismatch: the client offers X25519 and P-256 but sends a share for X25519 only, the server prefers
+		// P-256: the HelloRetryRequest asks for another group AS WELL AS for the cookie
+		{Name: "v13-ksm", V13: true, HRR: true},
+		{Name: "v13-ksm-clientauth", V13: true, HRR: true, ClientAuth: true},
 		// dual-stack client (MinVersion 1.2, MaxVersion 1.3): the version is negotiated before the state machine starts
 		{Name: "v13-dualc", V13: true},                      // x dual-stack server
 		{Name: "v13-dualc-direct", V13: true, SkipHV: true}, // x DTLS 1.3 only server that skips the cookie exchange
@@ -52,6 +60,20 @@ func hs13Variants() []c02Variant {
 // hs13Dual adjusts the version ranges of the dual-stack variants.
 func hs13Dual(name string, c, s *dtlsConfig) {
 	switch name {
+	case "v13-ksm", "v13-ksm-clientauth":
+		c.EllipticCurves = []elliptic.Curve{elliptic.X25519, elliptic.P256}
+		s.EllipticCurves = []elliptic.Curve{elliptic.P256, elliptic.X25519}
+		c.ClientHelloMessageHook = func(ch handshake.MessageClientHello) handshake.Message {
+			for i, e := range ch.Extensions {
+				if ks, ok := e.(*extension13.ClientKeyShare); ok && len(ks.Shares) > 1 {
+					exts := append([]extension.Value(nil), ch.Extensions...)
+					exts[i] = &extension13.ClientKeyShare{Shares: ks.Shares[:1]}
+					ch.Extensions = exts
+				}
+			}
+
+			return &ch
+		}
 	case "v13-dualc":
 		c.MinVersion, s.MinVersion = protocol.Version1_2, protocol.Version1_2
 	case "v13-dualc-direct":
@@ -84,6 +106,9 @@ type hs13Rec struct {
 	Acks  [][2]uint64 `json:"acks,omitempty"`  // ACK: the acknowledged record numbers
 	AckFr [][3]int    `json:"ackfr,omitempty"` // ACK: what those records carried (mseq, foff, flen); -1 = unknown record
 	Size  int         `json:"sz"`              // bytes on the wire
+	// cookie extension of the message this record belongs to (HelloRetryRequest: issued; ClientHello: echoed):
+	// hex, "-" = no cookie extension, "" = not applicable / message not reassembled
+	CK string `json:"ck,omitempty"`
 }
 
 type hs13Event struct {
@@ -115,6 +140,8 @@ type hs13Case struct {
 	ReverseTo    string       `json:"reverse_to"`
 	Inject       []hs13Inject `json:"inject,omitempty"`
 	ServerWrites int          `json:"server_writes,omitempty"`
+	Forge        string       `json:"forge,omitempty"`
+	ForgeAtMs    int64        `json:"forge_at,omitempty"`
 	MTU          int          `json:"mtu"`
 	Notes        []string     `json:"notes,omitempty"`
 }
@@ -161,7 +188,10 @@ type hs13Opt struct {
 	ReverseTo    string        // every burst of datagrams towards this side ("client", "server", "both") arrives in reverse order
 	Inject       []hs13Inject  // forged unprotected handshake fragments handed to one side at given virtual times
 	ServerWrites int           // the server application writes this many records as soon as its handshake has returned
-	Limit        time.Duration
+	Forge        string        // a second ClientHello nobody's client sent, built from the first one and the HelloRetryRequest on the wire:
+	//                            cookie "absent" | "wrong" | "trunc" | "long" | "right" (same hello) | "altered" (right cookie, other random)
+	ForgeAtMs int64
+	Limit     time.Duration
 }
 
 // ---------------------------------------------------------------- opening records
@@ -173,10 +203,12 @@ type hs13Key struct {
 }
 
 type hs13Classifier struct {
-	lab   *vLab
-	sent  map[hs13Key][3]int // handshake record -> the fragment it carried
-	isHRR map[string]bool    // "side/mseq" -> the ServerHello with this message_seq is a HelloRetryRequest
-	notes *[]string
+	lab     *vLab
+	sent    map[hs13Key][3]int        // handshake record -> the fragment it carried
+	isHRR   map[string]bool           // "side/mseq" -> the ServerHello with this message_seq is a HelloRetryRequest
+	hello   map[string]map[int][]byte // ClientHello fragments: "side/mseq/length" -> offset -> bytes
+	lastHRR *handshake.MessageServerHello
+	notes   *[]string
 }
 
 func (c *hs13Classifier) note(f string, a ...any) {
@@ -203,11 +235,76 @@ func (c *hs13Classifier) hsRec(side string, epoch int, seq uint64, content []byt
 		}
 		if c.isHRR[key] {
 			out.HT = 6
+			if out.FO == 0 && out.FL == out.TL {
+				sh := &handshake.MessageServerHello{}
+				if err := sh.Unmarshal(body); err == nil {
+					out.CK = "-"
+					for _, e := range sh.Extensions {
+						if ck, ok := e.(*extension13.Cookie); ok {
+							out.CK = vHex(ck.Cookie)
+						}
+					}
+					if side == "server" {
+						c.lastHRR = sh
+					}
+				}
+			}
 		}
+	}
+	if hh.Type == handshake.TypeClientHello && epoch == 0 {
+		key := fmt.Sprintf("%s/%d/%d", side, out.MS, out.TL)
+		if c.hello[key] == nil {
+			c.hello[key] = map[int][]byte{}
+		}
+		c.hello[key][out.FO] = bytes.Clone(content[handshake.HeaderLength : handshake.HeaderLength+out.FL])
 	}
 	c.sent[hs13Key{side, epoch, seq}] = [3]int{out.MS, out.FO, out.FL}
 
 	return out
+}
+
+// helloCookie: the cookie extension of a reassembled ClientHello ("-" none, "" not complete / unreadable).
+func (c *hs13Classifier) helloCookie(side string, ms, tl int) string {
+	frs := c.hello[fmt.Sprintf("%s/%d/%d", side, ms, tl)]
+	var full []byte
+	for len(full) < tl {
+		f, ok := frs[len(full)]
+		if !ok || len(f) == 0 {
+			return ""
+		}
+		full = append(full, f...)
+	}
+	ch := &handshake.MessageClientHello{}
+	if err := ch.Unmarshal(full); err != nil {
+		return ""
+	}
+	for _, e := range ch.Extensions {
+		if ck, ok := e.(*extension13.Cookie); ok {
+			return vHex(ck.Cookie)
+		}
+	}
+
+	return "-"
+}
+
+// fillCookies labels every ClientHello record of the trace with the cookie its message carries.
+func (c *hs13Classifier) fillCookies(res *hs13Case) {
+	for i := range res.Events {
+		e := &res.Events[i]
+		if e.Ev != "emit" && e.Ev != "inject" {
+			continue
+		}
+		side := e.Side
+		if e.Ev == "inject" {
+			side = "forged"
+		}
+		for j := range e.Recs {
+			r := &e.Recs[j]
+			if r.K == "hs" && r.HT == 1 && r.E == 0 && r.CK == "" {
+				r.CK = c.helloCookie(side, r.MS, r.TL)
+			}
+		}
+	}
 }
 
 func (c *hs13Classifier) open(side string, raw []byte) hs13Rec {
@@ -368,6 +465,97 @@ func hs13NewLab(t *testing.T, ccfg, scfg *dtlsConfig) *vLab {
 	return lab
 }
 
+// hs13ForgeCH2 builds, as a sender that has seen the wire would, the second ClientHello that answers the last
+// HelloRetryRequest - with the cookie left out, replaced, cut, extended, or right (then optionally with another
+// client random) - from the real client's first ClientHello, and frames it as unprotected records.
+func hs13ForgeCH2(lab *vLab, cl *hs13Classifier, family string, mtu int) ([][]byte, error) {
+	st, ok := lab.Client.Conn.state.(*dtlsstate.State13)
+	if !ok {
+		return nil, fmt.Errorf("client state is not DTLS 1.3")
+	}
+	if cl.lastHRR == nil {
+		return nil, fmt.Errorf("no HelloRetryRequest seen yet")
+	}
+	initial := st.LocalClientHelloSnapshots.Initial()
+	hrr := *cl.lastHRR
+	var exts []extension.Value
+	var issued []byte
+	for _, e := range hrr.Extensions {
+		if ck, ok := e.(*extension13.Cookie); ok {
+			issued = bytes.Clone(ck.Cookie)
+
+			continue
+		}
+		exts = append(exts, e)
+	}
+	var cookie []byte
+	switch family {
+	case "absent":
+	case "wrong":
+		cookie = bytes.Repeat([]byte{0x5a}, 20)
+	case "trunc":
+		if len(issued) < 2 {
+			cookie = []byte{0x01}
+		} else {
+			cookie = bytes.Clone(issued[:len(issued)/2])
+		}
+	case "long":
+		cookie = append(bytes.Clone(issued), 0x00)
+	default: // right, altered
+		cookie = bytes.Clone(issued)
+	}
+	if len(cookie) > 0 {
+		exts = append(exts, &extension13.Cookie{Cookie: cookie})
+	}
+	hrr.Extensions = exts
+	var ch *handshake.MessageClientHello
+	req, err := negotiation.ValidateHelloRetryRequest(initial, &hrr)
+	if err == nil {
+		var fresh *extension13.KeyShareEntry
+		if req.HasSelectedGroup {
+			kp, kerr := elliptic.GenerateKeypair(req.SelectedGroup)
+			if kerr != nil {
+				return nil, kerr
+			}
+			fresh = &extension13.KeyShareEntry{Group: kp.Curve, KeyExchange: kp.PublicKey}
+		}
+		ch, err = negotiation.BuildClientHelloRetry(initial, req, fresh)
+	} else {
+		// a HelloRetryRequest that asks for nothing: the second hello repeats the first
+		ch, err = negotiation.ClientHelloFromSnapshot(initial)
+	}
+	if err != nil {
+		return nil, err
+	}
+	if family == "altered" {
+		ch.Random.RandomBytes[0] ^= 0xff
+	}
+	body, err := ch.Marshal()
+	if err != nil {
+		return nil, err
+	}
+	var out [][]byte
+	for off, n := 0, 0; off < len(body) || n == 0; n++ {
+		end := off + mtu
+		if end > len(body) {
+			end = len(body)
+		}
+		hh, _ := (&handshake.Header{
+			Type: handshake.TypeClientHello, Length: uint32(len(body)), MessageSequence: 1, //nolint:gosec
+			FragmentOffset: uint32(off), FragmentLength: uint32(end - off), //nolint:gosec
+		}).Marshal()
+		payload := append(hh, body[off:end]...)
+		rh, _ := (&recordlayer.Header{
+			ContentType: protocol.ContentTypeHandshake, Version: protocol.Version1_2,
+			SequenceNumber: uint64(900 + n), ContentLen: uint16(len(payload)), //nolint:gosec
+		}).Marshal()
+		out = append(out, append(rh, payload...))
+		off = end
+	}
+
+	return out, nil
+}
+
 // runHs13: like runC02 (mask = action per emitted datagram index: pass | drop | dup | hold:k | late:ms, then
 // reliable), with every record opened and blanket-silence options.
 func runHs13(t *testing.T, v c02Variant, mask []string, opt hs13Opt) hs13Case {
@@ -375,7 +563,7 @@ func runHs13(t *testing.T, v c02Variant, mask []string, opt hs13Opt) hs13Case {
 	res := hs13Case{
 		Kind: "hs13", Variant: v.Name, Mask: mask, Interval: opt.Interval.Milliseconds(), NoBackoff: opt.NoBackoff,
 		SilenceFrom: opt.SilenceFrom, SilenceUntil: opt.SilenceUntil.Milliseconds(), SilenceTo: opt.SilenceTo, ReverseTo: opt.ReverseTo,
-		Inject: opt.Inject, ServerWrites: opt.ServerWrites,
+		Inject: opt.Inject, ServerWrites: opt.ServerWrites, Forge: opt.Forge, ForgeAtMs: opt.ForgeAtMs,
 	}
 	if res.Interval == 0 {
 		res.Interval = 1000
@@ -389,7 +577,7 @@ func runHs13(t *testing.T, v c02Variant, mask []string, opt hs13Opt) hs13Case {
 	lab := hs13NewLab(t, ccfg, scfg)
 	defer lab.close()
 	res.MTU = lab.Client.Conn.maximumTransmissionUnit
-	cl := &hs13Classifier{lab: lab, sent: map[hs13Key][3]int{}, isHRR: map[string]bool{}, notes: &res.Notes}
+	cl := &hs13Classifier{lab: lab, sent: map[hs13Key][3]int{}, isHRR: map[string]bool{}, hello: map[string]map[int][]byte{}, notes: &res.Notes}
 	emitted := 0
 	logEmissions := func(cause string) {
 		for _, d := range lab.Net.since(emitted) {
@@ -410,6 +598,7 @@ func runHs13(t *testing.T, v c02Variant, mask []string, opt hs13Opt) hs13Case {
 	}
 	var lates []late // kept sorted by release time
 	injects := append([]hs13Inject(nil), opt.Inject...)
+	forged := false
 	delivered := 0
 	wrote := false
 	serverWrites := func() {
@@ -512,6 +701,22 @@ func runHs13(t *testing.T, v c02Variant, mask []string, opt hs13Opt) hs13Case {
 			res.LastFault = lab.Net.now().Milliseconds()
 			progressed = true
 		}
+		if opt.Forge != "" && !forged && time.Duration(opt.ForgeAtMs)*time.Millisecond <= lab.Net.now() {
+			forged = true
+			if raws, err := hs13ForgeCH2(lab, cl, opt.Forge, res.MTU); err != nil {
+				cl.note("forge %s: %v", opt.Forge, err)
+			} else {
+				for _, data := range raws {
+					d := vDatagram{Idx: -1, From: "forged", To: "server", Data: data}
+					res.Events = append(res.Events, hs13Event{Ev: "inject", Idx: -1, Side: "server", T: lab.Net.now().Milliseconds(), Recs: cl.classify(d)})
+					lab.Net.deliver("server", "client", data)
+					synctest.Wait()
+					logEmissions("deliver")
+				}
+				res.LastFault = lab.Net.now().Milliseconds()
+				progressed = true
+			}
+		}
 		for len(injects) > 0 && time.Duration(injects[0].AtMs)*time.Millisecond <= lab.Net.now() {
 			in := injects[0]
 			injects = injects[1:]
@@ -530,7 +735,7 @@ func runHs13(t *testing.T, v c02Variant, mask []string, opt hs13Opt) hs13Case {
 			res.LastFault = lab.Net.now().Milliseconds()
 			progressed = true
 		}
-		if lab.bothDone() && len(helds) == 0 && len(lates) == 0 && len(injects) == 0 {
+		if lab.bothDone() && len(helds) == 0 && len(lates) == 0 && len(injects) == 0 && (opt.Forge == "" || forged) {
 			break
 		}
 		if progressed {
@@ -551,6 +756,9 @@ func runHs13(t *testing.T, v c02Variant, mask []string, opt hs13Opt) hs13Case {
 		if len(lates) > 0 && lates[0].at-lab.Net.now() < wait {
 			wait = lates[0].at - lab.Net.now()
 		}
+		if opt.Forge != "" && !forged && time.Duration(opt.ForgeAtMs)*time.Millisecond-lab.Net.now() < wait {
+			wait = time.Duration(opt.ForgeAtMs)*time.Millisecond - lab.Net.now()
+		}
 		if len(injects) > 0 && time.Duration(injects[0].AtMs)*time.Millisecond-lab.Net.now() < wait {
 			wait = time.Duration(injects[0].AtMs)*time.Millisecond - lab.Net.now()
 		}
@@ -561,6 +769,7 @@ func runHs13(t *testing.T, v c02Variant, mask []string, opt hs13Opt) hs13Case {
 		}
 		tm.Stop()
 	}
+	cl.fillCookies(&res)
 	res.CDone, res.SDone = lab.Client.handshakeDone(), lab.Server.handshakeDone()
 	if res.CDone {
 		res.CErr = vErrString(lab.Client.Err)
